@@ -47,8 +47,6 @@ def install(ctx):
         if abs(float(got.sum()) - tot) > 1e-9 * abs(tot) + 1e-12 * np.sum(np.abs(ref)) + 1e-300:
             ctx.violation('rebin:sum-not-overlap-integral', 'sum of binned responses differs from the integral of the filter over the overlap',
                           dict(wit, sum_got=float(got.sum()), overlap_integral=tot))
-        if not probe.same(self.response, fr) or not probe.same(self.nu.to(u.Hz).value, fnu):
-            ctx.violation('rebin:modifies-filter', 'rebin modified the filter it was called on', wit)
         return True
 
     def norm_snapshot(self):
@@ -61,7 +59,9 @@ def install(ctx):
         if tot <= 0:
             return True
         got = np.asarray(self.response, float)
-        if not O.close(got, fr / tot, 1e-12):
+        gnu = np.asarray(self.nu.to(u.Hz).value, float)
+        o1, o0 = np.argsort(gnu), np.argsort(fnu)
+        if got.shape != fr.shape or not O.close(gnu[o1], fnu[o0], 1e-12) or not O.close(got[o1], (fr / tot)[o0], 1e-12):
             ctx.violation('normalize:not-unit-integral', 'normalised response is not response / |integral over nu|',
                           {'filter_nu': fnu, 'response': fr, 'integral': tot, 'got': got})
         return True
@@ -117,9 +117,9 @@ def run(ctx):
                 'a case = one rebin or one convolved file; non-trivial = filter and grid overlap')
     ctx.assume('oracle: exact rational integration of the piecewise-linear response on the float inputs; midpoints formed in float64 as the statement\'s midpoints',
                'tolerance 1e-9 relative + 1e-12 of sum|R| (trapezium sums in float64)', 'strictly monotone grids (duplicate frequencies outside the quantifier)')
-    ctx.require_events('Filter.rebin:post', 'Filter.normalize:post', 'file:checked', 'flat-spectrum', 'filter:read-from-text', 'rebin:same-filter-again')
+    ctx.require_events('Filter.rebin:post', 'Filter.normalize:post', 'file:checked', 'flat-spectrum', 'filter:read-from-text', 'rebin:same-filter-again', 'reconvolved:same-name-new-response')
     ctx.require_regimes('filter:ascending-nu', 'filter:descending-nu', 'grid:ascending-nu', 'grid:descending-nu', 'grid:coarser', 'grid:finer',
-                        'overlap:partial-lo', 'overlap:partial-hi', 'overlap:contains', 'overlap:contained', 'edges:coincide', 'pkg:v1', 'pkg:v2', 'pkg:mixed-grids')
+                        'overlap:partial-lo', 'overlap:partial-hi', 'overlap:contains', 'overlap:contained', 'edges:coincide', 'pkg:v1', 'pkg:v2', 'pkg:mixed-grids', 'filter:not-normalised', 'grids:nearly-equal')
     d = ctx.newdir('c06')
     n_reb = 500 if ctx.quick else 15000
     for it in range(n_reb):
@@ -147,6 +147,16 @@ def run(ctx):
                 ctx.violation('filter-read-raised', 'Filter.read raised: %r' % (exc,), {'wav': fw})
                 continue
             os.remove(path)
+            # the curve read must be the curve in the file: (wavelength, response) pairs, central wavelength, name
+            rnu = np.asarray(f.nu.to(u.Hz).value, float)
+            rr = np.asarray(f.response, float)
+            o_ = np.argsort(rnu)
+            want_nu = (pkg.C_UM_HZ / fw)[::-1]
+            if rnu.shape != fw.shape or not O.close(rnu[o_], want_nu, 1e-12) or not O.close(rr[o_], resp[::-1], 1e-15) or \
+                    abs(f.central_wavelength.to(u.micron).value / np.sqrt(a * b) - 1) > 1e-12 or f.name != 'flt%d' % it:
+                ctx.violation('filter-read:curve-differs-from-file', 'the filter read from a two-column text file is not the curve stored in it',
+                              {'file_wav': fw, 'file_response': resp, 'read_nu': rnu, 'read_response': rr, 'name': f.name})
+                continue
             desc = bool(f.nu[0] > f.nu[-1])
         else:
             f = convcheck.build_filter('f', fw, resp, np.sqrt(a * b), descending_nu=desc, normalize=False)
@@ -188,7 +198,10 @@ def run(ctx):
                 f.rebin(g2.copy() * u.Hz)
                 ctx.event('rebin:same-filter-again')
         except Exception as exc:
-            ctx.violation('rebin-raised', 'Filter.rebin raised: %r' % (exc,), {'filter_wav': fw, 'grid_nu': g, 'kind': kind})
+            if kind == 'disjoint':
+                ctx.event('disjoint-grid-refused(outside the quantifier)')
+            else:
+                ctx.violation('rebin-raised', 'Filter.rebin raised: %r' % (exc,), {'filter_wav': fw, 'grid_nu': g, 'kind': kind})
         ctx.case(('rebin', it, ctx.shard), nontrivial=kind != 'disjoint',
                  sample={'filter_wav_um': fw, 'response': resp, 'grid_nu_hz': g, 'kind': kind} if it < 2 else None)
 
@@ -207,7 +220,11 @@ def run(ctx):
         filters = []
         for jf in range(int(rng.integers(1, 4))):
             fw, resp, central, kind = convcheck.make_filter_arrays(rng, truth.wav)
-            filters.append(convcheck.build_filter('F%d' % jf, fw, resp, central, descending_nu=bool(rng.random() < 0.5)))
+            filters.append(convcheck.build_filter('F%d' % jf, fw, resp, central, descending_nu=bool(rng.random() < 0.5),
+                                                  normalize=bool(rng.random() < 0.6),          # the caller decides about normalisation
+                                                  nu_unit=[None, u.GHz, u.THz][int(rng.integers(3))],
+                                                  cw_unit=[None, u.nm, u.AA, u.mm][int(rng.integers(4))]))
+            ctx.regime('filter:normalised' if abs(float(O.integral_exact(filters[-1].nu.to(u.Hz).value, filters[-1].response)) - 1) < 1e-9 else 'filter:not-normalised')
         # flat-spectrum filter: normalised, inside the SED range
         fw, resp, central, _ = convcheck.make_filter_arrays(rng, truth.wav, kind='inside')
         flat = convcheck.build_filter('FLAT', fw, resp, central, descending_nu=bool(rng.random() < 0.5))
@@ -233,7 +250,26 @@ def run(ctx):
                 ctx.violation('file:flux-not-sum-F-R', 'convolved flux is not sum_i F(nu_i) R_i', dict(wit, got=got['flux'][0], expected=ref_f[rows][0]))
             if np.any(np.abs(got['err'] - ref_e[rows]) > 1e-9 * np.abs(ref_e[rows]) + 1e-300):
                 ctx.violation('file:error-not-quadrature', 'convolved error is not sqrt(sum_i (E_i R_i)^2)', dict(wit, got=got['err'][0], expected=ref_e[rows][0]))
+            if got['filtwav'] is None or abs(got['filtwav'] / flt.central_wavelength.to(u.micron).value - 1) > 1e-12:
+                ctx.violation('file:filtwav', 'the central wavelength written to the file is not the filter\'s (in micron)', dict(wit, got=got['filtwav'], expected=flt.central_wavelength))
             ctx.case(('file', ip, flt.name, ctx.shard), nontrivial=bool(np.any(R > 0)))
+        # the same package convolved again with a filter of the same NAME whose response changed (overwrite): no stale weights
+        if ip % 2 == 0 and filters:
+            f0 = filters[0]
+            f1 = convcheck.build_filter(f0.name, pkg.C_UM_HZ / np.sort(f0.nu.to(u.Hz).value)[::-1], np.asarray(f0.response)[np.argsort(f0.nu.to(u.Hz).value)][::-1] * np.linspace(0.3, 2.0, len(f0.response)),
+                                        f0.central_wavelength.to(u.micron).value, normalize=False)
+            try:
+                convolve_model_dir(pd, [f1], overwrite=True)
+                ref_f, ref_e, R = convcheck.reference_convolution(truth, f1)
+                got = convcheck.read_convolved_plain(os.path.join(pd, 'convolved', f1.name + '.fits'))
+                rows = [truth.index(nm) for nm in got['names']]
+                ctx.event('reconvolved:same-name-new-response')
+                scale = 1e-9 * np.abs(ref_f[rows]) + 1e-12 * np.sum(np.abs(truth.flux[rows][:, :, ::-1] * R), axis=2)
+                if np.any(np.abs(got['flux'] - ref_f[rows]) > scale):
+                    ctx.violation('file:stale-weights-after-reconvolution', 'convolving again with a changed filter of the same name did not use the new response',
+                                  dict(wit0, filter=f1.name, got=got['flux'][0], expected=ref_f[rows][0]))
+            except Exception as exc:
+                ctx.violation('convolve-raised:overwrite', 'convolve_model_dir(overwrite=True) raised: %r' % (exc,), wit0)
         ctx.rmdir(pd)
         # flat spectrum F_nu = c through a normalised filter inside the SED range returns c
         c = float(10 ** rng.uniform(-3, 3))
@@ -267,7 +303,11 @@ def mixed_grid_packages(ctx, rng, convolve_model_dir):
         lo, hi = float(gen.loguniform(rng, 0.05, 1.0)), float(gen.loguniform(rng, 50.0, 2000.0))
         grids = []
         for g in range(int(rng.integers(2, 4))):
-            if g < 2 or rng.random() < 0.5:      # same length, same end points, different interior sampling
+            if g == 1 and ip % 2 == 1:            # the previous grid perturbed by 1e-7..1e-4 relative (same length): still a different grid
+                grids.append(grids[0] * (1 + 10 ** rng.uniform(-7, -4) * rng.uniform(-1, 1, len(grids[0]))))
+                grids[-1].sort()
+                ctx.regime('grids:nearly-equal')
+            elif g < 2 or rng.random() < 0.5:      # same length, same end points, different interior sampling
                 inner = np.sort(gen.loguniform(rng, lo * 1.01, hi * 0.99, n_w - 2))
                 grids.append(np.concatenate([[lo], inner, [hi]]))
             else:                                 # a different length
